@@ -75,6 +75,41 @@ type cyc struct {
 	M    map[string]any
 }
 
+// cyclic typed data whose back reference crosses something other than a plain pointer field
+type pageV struct {
+	Title string
+	Meta  metaV // by value
+}
+type metaV struct {
+	Owner *pageV
+	Tags  []string
+}
+type treeV struct {
+	Name string
+	Kids []nodeV // slice of structs by value
+}
+type nodeV struct {
+	Label  string
+	Parent *treeV
+}
+type ifaceC struct {
+	Name string
+	Any  any // interface holding the pointer
+}
+type InnerC struct{ Back *embC }
+type embC struct {
+	Name   string
+	InnerC // embedded by value
+}
+type mapPtrC struct {
+	Name   string
+	ByName map[string]*mapPtrC
+}
+type arrC struct {
+	Name string
+	Pair [2]*arrC
+}
+
 type withPriv struct {
 	Name string
 	priv string
@@ -112,6 +147,35 @@ func special(name string) any {
 		n := &cyc{Name: "n", M: map[string]any{}}
 		n.M["back"] = n
 		return n
+	case "cyclic-via-value-field":
+		p := &pageV{Title: "t"}
+		p.Meta = metaV{Owner: p, Tags: []string{"x"}}
+		return p
+	case "cyclic-via-value-slice":
+		t := &treeV{Name: "t"}
+		t.Kids = []nodeV{{Label: "k1", Parent: t}, {Label: "k2", Parent: t}}
+		return t
+	case "cyclic-via-interface":
+		n := &ifaceC{Name: "n"}
+		n.Any = n
+		return n
+	case "cyclic-via-embedded":
+		e := &embC{Name: "e"}
+		e.Back = e
+		return e
+	case "cyclic-via-map-of-ptr":
+		m := &mapPtrC{Name: "m", ByName: map[string]*mapPtrC{}}
+		m.ByName["me"] = m
+		return m
+	case "cyclic-via-array":
+		a := &arrC{Name: "a"}
+		a.Pair = [2]*arrC{a, a}
+		return a
+	case "cyclic-value-root":
+		// the root itself is passed by value; the cycle closes through a pointer to a copy
+		p := &pageV{Title: "t"}
+		p.Meta = metaV{Owner: p}
+		return *p
 	case "unexported":
 		return withPriv{Name: "n", priv: "p", in: &withPriv{Name: "in"}}
 	case "unexported-ptr":
@@ -163,7 +227,7 @@ func special(name string) any {
 // Not in the domain: a map[string]any or []any that contains ITSELF. Printing such a value
 // overflows the stack inside the standard library's fmt (as in any Go program); pointer cycles
 // between structs - the realistic shape of cyclic data - are covered.
-var specials = []string{"cyclic-ptr", "cyclic-2", "cyclic-in-map", "unexported", "unexported-ptr", "map-int-keys", "map-struct-keys", "map-any-keys", "func", "chan", "stringer", "typed-nil-ptr", "typed-nil-map", "typed-nil-slice", "nested-ptr", "array-of-struct", "slice-of-nil", "big-uint", "complex", "bytes", "error", "deep"}
+var specials = []string{"cyclic-ptr", "cyclic-2", "cyclic-in-map", "cyclic-via-value-field", "cyclic-via-value-slice", "cyclic-via-interface", "cyclic-via-embedded", "cyclic-via-map-of-ptr", "cyclic-via-array", "cyclic-value-root", "unexported", "unexported-ptr", "map-int-keys", "map-struct-keys", "map-any-keys", "func", "chan", "stringer", "typed-nil-ptr", "typed-nil-map", "typed-nil-slice", "nested-ptr", "array-of-struct", "slice-of-nil", "big-uint", "complex", "bytes", "error", "deep"}
 
 func dataOf(c Case) any {
 	m := map[string]any{}
